@@ -1,4 +1,5 @@
 import SJ.Props.C01
+import SJ.Props.C01Iff
 #print axioms SJ.Props.C01.c01_complete_value
 #print axioms SJ.Props.C01.c01_complete_sideConditions
 #print axioms SJ.Props.C01.c01_complete_value_ap
@@ -6,3 +7,6 @@ import SJ.Props.C01
 #print axioms SJ.Props.C01.c01_empty_rejected
 #print axioms SJ.Props.C01.c01_trailing_ws
 #print axioms SJ.Props.C01.c01_leading_ws
+#print axioms SJ.Props.C01Iff.c01_accepts_iff
+#print axioms SJ.Props.C01Iff.c02_value_is_canon
+#print axioms SJ.Props.C01Iff.c19_skip_language
